@@ -111,6 +111,10 @@ def run(report, p):
             r1.instance(cf, call, norm(call)[:110])
             if cf.qual in trav_q:
                 r1.check(isinstance(arg, ast.Name) and arg.id == spec_param, cf, call, "the recursive traversal call does not hand on its own ignore spec")
+                # ... nor may it lose the folder the patterns are relative to: every further parameter of the traversal is handed on as it is
+                for extra in t.params[2:]:
+                    ea = b.get(extra)
+                    r1.check(isinstance(ea, ast.Name) and ea.id == extra, cf, call, f"the recursive traversal call does not hand on `{extra}` (the folder the ignore patterns are relative to): from the second level down the patterns are matched relative to the sub-folder being entered - patterns with a slash (`clips/proxies/cache`) stop matching there and anchored ones (`/notes.txt`) match in every sub-folder", construct=f"recursion drops {extra}")
                 continue
             if arg is None or (isinstance(arg, ast.Constant) and arg.value is None):
                 r1.check(False, cf, call, "traversal started without an ignore spec")
@@ -410,6 +414,17 @@ def run(report, p):
         resets = [n for n in g.nodes if n.kind == "stmt" and isinstance(n.ast, ast.Assign) and "_ignore_list" in norm(n.ast.targets[0]) and isinstance(n.ast.value, ast.List) and not n.ast.value.elts]
         ok = ok and len(resets) == 1 and all(g.dominates(resets[0], x) for grp in groups.values() for x in grp)
     r4.check(ok, sp, sp.node, "set_patterns does not apply [previous or defaults] -> [-i list] -> [-ii file] in that order after a reset", construct="set_patterns order")
+    # each source is applied under a test of ITS OWN parameter only: the pattern file must not depend on whether -i patterns were given, and so on
+    own_param = {"existing": sp.params[1], "list": sp.params[2], "file": sp.params[3]}
+    for grp, nodes_ in groups.items():
+        for nd in nodes_:
+            foreign = []
+            for t_, l_ in g.necessary_branches(nd):
+                for a_, l2 in atomic_deps(t_.ast, l_):
+                    base_ = a_.replace(" is None", "")
+                    if base_ in sp.params and base_ != own_param[grp] and base_ != "self":
+                        foreign.append((a_, l2))
+            r4.check(not foreign, sp, nd.ast, f"the {'-ii pattern file' if grp == 'file' else ('-i patterns' if grp == 'list' else 'previous patterns')} are only applied when `{foreign[0][0] if foreign else ''}` is {'true' if foreign and foreign[0][1] == 'T' else 'false'}: `-ii FILE` without `-i` (or the reverse) is silently dropped - the patterns are neither used for this run nor written into the new generation", construct=f"set_patterns: {grp} source under a test of another option")
     # which base list is taken: evaluated over the three cases of the 'existing patterns' argument
     from sa.absint import UNKNOWN, Evaluator, Obj, Val
 
